@@ -255,22 +255,75 @@ def seed_objects():
     }
 
 
+def seed_objects2():
+    """second seed document: composite font (Type0 + CIDFontType2 with W, DW, ToUnicode, CIDSystemInfo), Type 3 font with CharProcs and FontMatrix, TrueType simple font with
+    FontDescriptor / Widths / FirstChar, form XObject with Matrix and its own Resources, filtered image with DecodeParms, outline items with Dest / A, named destinations, label tree with Kids"""
+    tounicode = b"/CIDInit /ProcSet findresource begin 12 dict begin begincmap /CMapName /T def /CMapType 2 def 1 begincodespacerange <0000> <FFFF> endcodespacerange " \
+                b"1 beginbfchar <0001> <0041> endbfchar 1 beginbfrange <0002> <0003> <0042> endbfrange endcmap end end"
+    return {
+        1: {"Type": "Catalog", "Pages": Ref(2), "Outlines": Ref(20), "PageLabels": {"Kids": [Ref(23)]}, "Names": {"Dests": {"Names": [b"d1", [Ref(4), "Fit"]]}}, "Dests": Ref(24)},
+        2: {"Type": "Pages", "Kids": [Ref(4)], "Count": 1, "MediaBox": [0, 0, 300, 300], "Resources": Ref(6), "Rotate": 90, "CropBox": [10, 10, 290, 290]},
+        4: {"Type": "Page", "Parent": Ref(2), "Contents": [Ref(5), Ref(15)]},
+        5: Stream({}, b"q BT /F0 10 Tf 10 200 Td <000100020003> Tj /F3 8 Tf (ab) Tj /FT 9 Tf (AB) Tj ET Q "),
+        15: Stream({}, b"/Fm1 Do /Im1 Do BI /W 1 /H 1 /BPC 8 /CS /G ID \x00\nEI"),
+        6: {"Font": {"F0": Ref(7), "F3": Ref(10), "FT": Ref(12)}, "XObject": {"Fm1": Ref(16), "Im1": Ref(17)}, "ColorSpace": {"CS0": ["ICCBased", Ref(18)]}},
+        7: {"Type": "Font", "Subtype": "Type0", "BaseFont": "ABCDEF+Comp", "Encoding": "Identity-H", "DescendantFonts": [Ref(8)], "ToUnicode": Ref(9)},
+        8: {"Type": "Font", "Subtype": "CIDFontType2", "BaseFont": "ABCDEF+Comp", "CIDSystemInfo": {"Registry": b"Adobe", "Ordering": b"Identity", "Supplement": 0},
+            "FontDescriptor": Ref(13), "DW": 900, "W": [1, [500, 600], 3, 5, 700], "CIDToGIDMap": "Identity"},
+        9: Stream({}, tounicode),
+        10: {"Type": "Font", "Subtype": "Type3", "FontBBox": [0, 0, 10, 10], "FontMatrix": [0.1, 0, 0, 0.1, 0, 0], "CharProcs": {"a": Ref(11), "b": Ref(11)},
+             "Encoding": {"Type": "Encoding", "Differences": [97, "a", "b"]}, "FirstChar": 97, "LastChar": 98, "Widths": [8, 9], "Resources": {}},
+        11: Stream({}, b"8 0 0 0 8 8 d1 0 0 8 8 re f"),
+        12: {"Type": "Font", "Subtype": "TrueType", "BaseFont": "Arial", "FirstChar": 65, "LastChar": 66, "Widths": [600, 700], "FontDescriptor": Ref(13), "Encoding": "WinAnsiEncoding"},
+        13: {"Type": "FontDescriptor", "FontName": "Arial", "Flags": 32, "FontBBox": [-100, -200, 1000, 900], "ItalicAngle": 0, "Ascent": 900, "Descent": -200, "CapHeight": 700, "StemV": 80,
+             "MissingWidth": 400, "Leading": 1100},
+        16: Stream({"Type": "XObject", "Subtype": "Form", "BBox": [0, 0, 50, 50], "Matrix": [2, 0, 0, 2, 10, 10], "Resources": {"Font": {"F9": Ref(12)}}}, b"BT /F9 6 Tf 1 1 Td (A) Tj ET"),
+        17: Stream({"Type": "XObject", "Subtype": "Image", "Width": 2, "Height": 1, "BitsPerComponent": 8, "ColorSpace": "DeviceGray", "Filter": ["ASCIIHexDecode", "RunLengthDecode"],
+                    "DecodeParms": [None, {}]}, b"01 00 01 80>"),
+        18: Stream({"N": 3, "Alternate": "DeviceRGB"}, b"icc"),
+        20: {"Type": "Outlines", "First": Ref(21), "Last": Ref(22), "Count": 2},
+        21: {"Title": b"One", "Parent": Ref(20), "Next": Ref(22), "Dest": [Ref(4), "XYZ", 0, 300, None]},
+        22: {"Title": b"\xfe\xff\x00T\x00w\x00o", "Parent": Ref(20), "Prev": Ref(21), "A": {"S": "GoTo", "D": b"d1"}, "SE": Ref(25)},
+        23: {"Nums": [0, {"S": "r", "St": 3, "P": b"p-"}], "Limits": [0, 0]},
+        24: {"old": [Ref(4), "Fit"]},
+        25: {"Type": "StructElem"},
+    }
+
+
+SEEDS = {1: seed_objects, 2: seed_objects2}
+
 REPLACEMENTS = ["int", "name", "bytes", "list", "dict", "null", "bool", "self", "missing", "cycle", "remove", "real"]
 
 
-def sites(objs):
+def sites(objs, depth=1):
+    """fault sites: (object number, key) for every top-level key; with depth > 1 also the entries of nested dictionaries and the elements of arrays, as paths (n, k1, k2, ..)"""
     out = []
+
+    def walk(path, v, d):
+        if d >= depth:
+            return
+        if isinstance(v, dict):
+            for k in v:
+                out.append(path + (k,))
+                walk(path + (k,), v[k], d + 1)
+        elif isinstance(v, list):
+            for i in range(len(v)):
+                out.append(path + (i,))
+                walk(path + (i,), v[i], d + 1)
     for n, o in sorted(objs.items()):
-        d = o.d if isinstance(o, Stream) else o
-        for k in d:
-            out.append((n, k))
+        if isinstance(o, pdfgen.Raw):
+            continue
+        walk((n,), o.d if isinstance(o, Stream) else o, 0)
     return out
 
 
 def apply_fault(objs, site, rep):
-    n, k = site
+    n, path = site[0], list(site[1:])
     o = objs[n]
     d = o.d if isinstance(o, Stream) else o
+    for k in path[:-1]:
+        d = d[k]
+    k = path[-1]
     if rep == "remove":
         del d[k]
         return
@@ -307,29 +360,32 @@ def run_extract(data, seconds=5):
         signal.signal(signal.SIGALRM, old)
 
 
-def h4_faults(timeout=300, part=None, exclude=(), **kw):
-    base = seed_objects()
-    S = sites(base)
+def h4_faults(timeout=300, part=None, exclude=(), seed=1, depth=1, **kw):
+    base = SEEDS[seed]()
+    S = sites(base, depth)
 
     def fn(ex):
         si = ex.choice(len(S), "site")
         ri = ex.choice(len(REPLACEMENTS), "kind")
         key = "%d/%s:%s" % (S[si][0], S[si][1], REPLACEMENTS[ri])
-        if key in exclude or ("%d/%s:*" % S[si]) in exclude:
+        if key in exclude or ("%d/%s:*" % S[si][:2]) in exclude:
             raise symx.Abort()
-        objs = seed_objects()
+        objs = SEEDS[seed]()
         apply_fault(objs, S[si], REPLACEMENTS[ri])
         try:
             data = pdfgen.build(objs)
         except Exception:
             raise symx.Abort()
         r = run_extract(data)
-        ex.require(r is None, "object %d key /%s replaced by %s: %s" % (S[si][0], S[si][1], REPLACEMENTS[ri], r), site=list(S[si]), kind=REPLACEMENTS[ri])
+        ex.require(r is None, "object %d entry %s replaced by %s: %s" % (S[si][0], "/".join(map(str, S[si][1:])), REPLACEMENTS[ri], r), site=list(S[si]), kind=REPLACEMENTS[ri])
 
     def conc(m, info):
-        return {"what": "fault", "site": info["site"], "kind": info["kind"]}
+        return {"what": "fault", "site": info["site"], "kind": info["kind"], "seed": seed}
     from pdfminer import high_level
-    return core.run_symx("H4_faults", fn, [high_level.extract_text], {"seed": "8-object document (page tree, font with Differences, content stream, image, outlines, page labels)",
+    seed_desc = {1: "8-object document (page tree, font with Differences, content stream, image, outlines, page labels)",
+                 2: "24-object document (Type0 + CIDFontType2 with W/DW/ToUnicode, Type 3 font with CharProcs, TrueType font with descriptor, form XObject with Matrix, filtered image, "
+                    "inline image, two content streams, outline items with Dest / A, name tree, legacy Dests, label tree with Kids, inherited Resources / Rotate / CropBox)"}[seed]
+    return core.run_symx("H4_faults", fn, [high_level.extract_text], {"seed": seed_desc, "site depth": "top-level keys" if depth == 1 else "keys, nested entries and array elements to depth %d" % depth,
                                                                        "sites": len(S), "fault_kinds": REPLACEMENTS, "note": "enumeration through symbolic choices; concrete per path"},
                          timeout, concretize=conc, part=part)
 
@@ -364,8 +420,8 @@ def h4_faults2(timeout=1800, part=None, **kw):
                          timeout, concretize=conc, part=part)
 
 
-def h4_truncate(timeout=300, part=None, **kw):
-    data = pdfgen.build(seed_objects())
+def h4_truncate(timeout=300, part=None, seed=1, **kw):
+    data = pdfgen.build(SEEDS[seed]())
 
     def fn(ex):
         cut = ex.int("cut", 0, len(data))
@@ -374,9 +430,9 @@ def h4_truncate(timeout=300, part=None, **kw):
         ex.require(r is None, "document truncated after %d of %d bytes: %s" % (n, len(data), r), cut=n)
 
     def conc(m, info):
-        return {"what": "truncate", "cut": info["cut"]}
+        return {"what": "truncate", "cut": info["cut"], "seed": seed}
     from pdfminer import high_level
-    return core.run_symx("H4_faults", fn, [high_level.extract_text], {"truncation": "every prefix of the %d-byte seed document" % len(data)}, timeout, concretize=conc, part=part,
+    return core.run_symx("H4_faults", fn, [high_level.extract_text], {"truncation": "every prefix of the %d-byte seed document %d" % (len(data), seed)}, timeout, concretize=conc, part=part,
                          int_lo=0, int_hi=len(data))
 
 
@@ -619,10 +675,10 @@ def replay(harness, inp):
         r = run_extract(pdfgen.build(objs))
         return None if r is None else "seed document with faults %r at %r: %s" % (inp["kinds"], inp["sites"], r)
     if what == "fault":
-        objs = seed_objects()
+        objs = SEEDS[inp.get("seed", 1)]()
         apply_fault(objs, tuple(inp["site"]), inp["kind"])
         r = run_extract(pdfgen.build(objs))
-        return None if r is None else "seed document with object %d key /%s replaced by %s: %s" % (inp["site"][0], inp["site"][1], inp["kind"], r)
+        return None if r is None else "seed document %d with object %d entry %s replaced by %s: %s" % (inp.get("seed", 1), inp["site"][0], "/".join(map(str, inp["site"][1:])), inp["kind"], r)
     if what == "content":
         content, desc = content_fault(inp["kind"], inp["i"], inp["j"])
         r = run_extract(content_doc(content))
@@ -640,7 +696,7 @@ def replay(harness, inp):
         r = run_extract(data)
         return None if r is None else "seed document stored in an object stream + cross-reference stream, %s: %s" % (what2, r)
     if what == "truncate":
-        data = pdfgen.build(seed_objects())
+        data = pdfgen.build(SEEDS[inp.get("seed", 1)]())
         r = run_extract(data[:inp["cut"]])
         return None if r is None else "seed document truncated after %d bytes: %s" % (inp["cut"], r)
     raise KeyError(harness)
@@ -655,10 +711,14 @@ def jobs(tier):
     for k in range(4):
         J.append(Job("H3_predictors:%d" % k, "h3_predictors", {"part": [k, 4, 8]}, 300, "H3_decoders"))
     J.append(Job("H3_ascii", "h3_ascii", {}, 300, "H3_decoders"))
-    for k in range(4):
-        J.append(Job("H4_faults:%d" % k, "h4_faults", {"part": [k, 4, 6]}, 300, "H4_faults"))
+    for k in range(2):
+        J.append(Job("H4_faults:seed1:%d" % k, "h4_faults", {"depth": 3, "part": [k, 2, 6]}, 300, "H4_faults"))
+    for k in range(6):
+        J.append(Job("H4_faults:seed2:%d" % k, "h4_faults", {"seed": 2, "depth": 3, "part": [k, 6, 8]}, 300, "H4_faults"))
     for k in range(2):
         J.append(Job("H4_truncate:%d" % k, "h4_truncate", {"part": [k, 2, 5]}, 300, "H4_faults"))
+    for k in range(4):
+        J.append(Job("H4_truncate:seed2:%d" % k, "h4_truncate", {"seed": 2, "part": [k, 4, 6]}, 300, "H4_faults"))
     for k in range(2):
         J.append(Job("H4_objstm:%d" % k, "h4_objstm", {"part": [k, 2, 5]}, 300, "H4_faults"))
     for k in range(2):
